@@ -135,6 +135,10 @@ def _offsets(spec, L, bounds):
     if spec['mode'] == 'list':
         return [k for k in spec['list'] if 0 <= k < L]
     s = set()
+    if len(bounds) > 64:
+        # a writer that issues very many small writes: keep the first / last boundaries and a seeded sample of the rest
+        rb = random.Random(spec.get('seed', 0) + 1)
+        bounds = sorted(set(list(bounds[:8]) + list(bounds[-8:]) + rb.sample(list(bounds), 48)))
     for b in bounds:
         for d in range(-3, 4):
             if 0 <= b + d < L:
@@ -393,7 +397,7 @@ def _execute(sc, sim, out):
             seen.append(_judge(out, rr, G, ncomp, 'observer at %d durable bytes' % size))
             out.probe('observer_reads')
         sim.reset_ordinals()
-        for e in range(len(cum) + 2):
+        for e in (range(len(cum) + 2) if len(cum) <= 64 else list(range(8)) + list(range(8, len(cum) + 2, max(1, len(cum) // 48)))):
             sim.hooks[('write', e)] = observer
         if sc['stream'] == 'reader':
             for e in range(len(lines) + 2):
